@@ -1,35 +1,37 @@
 (* C15_depload -- load_outputs=minimal, clauses "every command that executes finds its direct dependencies'
    outputs present and current" and "cache faults while dependency outputs are being loaded", under CONCURRENCY:
    k dependants of one cache-hit dependency d with n outputs race on d (DepLoad.v: one step per acquisition of the
-   executor's per-dependency lock, read of d.OutputsLoaded, targetCache.Load, registry lock, re-check, validate,
+   executor's per-dependency lock, read of d.OutputsLoaded, targetCache.Load -- which FAILS when [rf], the task then
+   re-runs d at once --, registry lock, re-check, validate,
    restore of one output -- which FAILS when the blob is lost --, write of the flag, unlock, start of d's command
    for a re-run, complete write of one output by that run, OnTargetComplete, release of the per-dependency lock,
    start of the dependant's command; any interleaving).
    Only statements, each closed by [exact] of a lemma from DepLoad_proofs.v.
-   [reachable v n k miss s] = s is the result of some event list from [init k miss] under the step function of variant v;
-   [miss] = the set of blobs lost from the cache (ANY set: no hypothesis on it);
+   [reachable v n k miss rf s] = s is the result of some event list from [init k miss rf] under the step function of variant v;
+   [miss] = the set of blobs lost from the cache (ANY set: no hypothesis on it); [rf] = every lookup of d's target RESULT
+   made for a dependant fails (either way: no hypothesis on it) -- the two fault paths of LoadDependencyOutputs;
    VCorrect = the order of /repo after the repair of C15-F1 (outer lock around the whole per-dependency step, flag read
    under it; flag written after the restores or after the re-run); VNoOuterLock = the code before that repair;
    [obs s] = log of (task, what its command saw per output); [wrote s] = log of (task, what WriteOutputs read after a
    re-run); [restores s] = log of (task, output) per successful restore; [reruns s] = log of the tasks that started d's command.
-   No theorem carries a hypothesis besides reachability (n, k, the lost blobs, the interleaving are arbitrary). *)
+   No theorem carries a hypothesis besides reachability (n, k, the lost blobs, rf, the interleaving are arbitrary). *)
 From Coq Require Import List.
 From Grog Require Import DepLoad DepLoad_proofs.
 Import ListNotations.
 
 (* 1. every command that ran saw all n outputs of d current; every finished dependant did run its command -- with faults *)
-Theorem C15_depload_cmd_sees_current : forall n k miss s, reachable VCorrect n k miss s ->
+Theorem C15_depload_cmd_sees_current : forall n k miss rf s, reachable VCorrect n k miss rf s ->
   (forall t o, In (t, o) (obs s) -> o = repeat Current n) /\
   cmd_saw_stale s = false /\
   (forall t, t < k -> pcs s t = PDone -> In (t, repeat Current n) (obs s)).
 Proof.
-  exact (fun n k miss s Hr => conj (cmd_sees_current n k miss s Hr)
-                                   (conj (cmd_never_saw_stale n k miss s Hr) (done_task_observed n k miss s Hr))).
+  exact (fun n k miss rf s Hr => conj (cmd_sees_current n k miss rf s Hr)
+                                   (conj (cmd_never_saw_stale n k miss rf s Hr) (done_task_observed n k miss rf s Hr))).
 Qed.
 Print Assumptions C15_depload_cmd_sees_current.
 
 (* 2. the reason: OutputsLoaded = true implies that every output is in place (restored, or re-made by a complete re-run) *)
-Theorem C15_depload_flag_implies_restored : forall n k miss s, reachable VCorrect n k miss s ->
+Theorem C15_depload_flag_implies_restored : forall n k miss rf s, reachable VCorrect n k miss rf s ->
   flag s = true -> forall i, i < n -> files s i = Current.
 Proof. exact flag_implies_restored. Qed.
 Print Assumptions C15_depload_flag_implies_restored.
@@ -37,15 +39,15 @@ Print Assumptions C15_depload_flag_implies_restored.
 (* 3. no output is restored twice over the whole run, only outputs whose blob exists are restored, until d is re-run a file
       is current iff it was restored; a restore (also one that fails) is always made by the holder of both locks, before
       the flag is set, onto a file that is neither current nor torn *)
-Theorem C15_depload_restored_once : forall n k miss s, reachable VCorrect n k miss s ->
+Theorem C15_depload_restored_once : forall n k miss rf s, reachable VCorrect n k miss rf s ->
   (NoDup (map snd (restores s)) /\
    (forall t i, In (t, i) (restores s) -> i < n /\ miss i = false) /\
    (reruns s = [] -> forall i, files s i = Current <-> exists t, In (t, i) (restores s))) /\
   (forall t i s', step VCorrect n s (t, SRestore i) = Some s' ->
      olock s = Some t /\ lock s = Some t /\ flag s = false /\ files s i = Stale).
 Proof.
-  exact (fun n k miss s Hr => conj (restored_once n k miss s Hr)
-                                   (fun t i s' H => restore_by_holder_of_stale n k miss s t i s' Hr H)).
+  exact (fun n k miss rf s Hr => conj (restored_once n k miss rf s Hr)
+                                   (fun t i s' H => restore_by_holder_of_stale n k miss rf s t i s' Hr H)).
 Qed.
 Print Assumptions C15_depload_restored_once.
 
@@ -53,7 +55,7 @@ Print Assumptions C15_depload_restored_once.
       outer lock, while nobody is inside Registry.LoadOutputs, the flag is false and no re-run has happened; no command
       ever reads a torn output and WriteOutputs never caches one; a file is torn only while the holder of the outer lock
       runs d's command and has not yet written it *)
-Theorem C15_depload_rerun_at_most_once : forall n k miss s, reachable VCorrect n k miss s ->
+Theorem C15_depload_rerun_at_most_once : forall n k miss rf s, reachable VCorrect n k miss rf s ->
   length (reruns s) <= 1 /\
   (forall t s', step VCorrect n s (t, SRerunStart) = Some s' ->
      olock s = Some t /\ lock s = None /\ flag s = false /\ reruns s = []) /\
@@ -62,21 +64,31 @@ Theorem C15_depload_rerun_at_most_once : forall n k miss s, reachable VCorrect n
   (forall i, files s i = Torn ->
      i < n /\ exists t done, olock s = Some t /\ pcs s t = PRerun done /\ ~ In i done).
 Proof.
-  exact (fun n k miss s Hr =>
-    conj (rerun_at_most_once n k miss s Hr)
-   (conj (fun t s' H => rerun_by_outer_holder n k miss s t s' Hr H)
-   (conj (never_torn n k miss s Hr)
-   (conj (wrote_current n k miss s Hr) (torn_only_during_rerun n k miss s Hr))))).
+  exact (fun n k miss rf s Hr =>
+    conj (rerun_at_most_once n k miss rf s Hr)
+   (conj (fun t s' H => rerun_by_outer_holder n k miss rf s t s' Hr H)
+   (conj (never_torn n k miss rf s Hr)
+   (conj (wrote_current n k miss rf s Hr) (torn_only_during_rerun n k miss rf s Hr))))).
 Qed.
 Print Assumptions C15_depload_rerun_at_most_once.
 
+(* 4b. the result lookups fail (rf = true; any set of blobs lost as well): nothing is ever restored, nobody ever holds the
+      registry's lock, and as soon as the flag is set -- in particular as soon as one dependant has finished -- d's command
+      has run EXACTLY once *)
+Theorem C15_depload_result_fault_one_rerun : forall n k miss s, reachable VCorrect n k miss true s ->
+  restores s = [] /\ lock s = None /\
+  (flag s = true -> length (reruns s) = 1) /\
+  (forall t, t < k -> pcs s t = PDone -> length (reruns s) = 1).
+Proof. exact result_fault_one_rerun. Qed.
+Print Assumptions C15_depload_result_fault_one_rerun.
+
 (* 5. with the outer lock: no deadlock, every run is at most k * (2n + 14) steps long, and from every reachable state some
       continuation runs every command (so a schedule that never starves an enabled task finishes) *)
-Theorem C15_depload_progress : forall n k miss,
-  (forall s, reachable VCorrect n k miss s -> all_tasks_done k s \/ exists e s', step VCorrect n s e = Some s') /\
-  (forall evs s, run VCorrect n (init k miss) evs = Some s -> length evs <= k * (2 * n + 14)) /\
-  (forall s, reachable VCorrect n k miss s -> exists evs s', run VCorrect n s evs = Some s' /\ all_tasks_done k s').
-Proof. exact (fun n k miss => conj (no_deadlock n k miss) (conj (run_bounded n k miss) (can_finish n k miss))). Qed.
+Theorem C15_depload_progress : forall n k miss rf,
+  (forall s, reachable VCorrect n k miss rf s -> all_tasks_done k s \/ exists e s', step VCorrect n s e = Some s') /\
+  (forall evs s, run VCorrect n (init k miss rf) evs = Some s -> length evs <= k * (2 * n + 14)) /\
+  (forall s, reachable VCorrect n k miss rf s -> exists evs s', run VCorrect n s evs = Some s' /\ all_tasks_done k s').
+Proof. exact (fun n k miss rf => conj (no_deadlock n k miss rf) (conj (run_bounded n k miss rf) (can_finish n k miss rf))). Qed.
 Print Assumptions C15_depload_progress.
 
 (* 6. the orders that are wrong.  (a) C15-F1, the code before the outer lock, k = 2, n = 1, the blob lost: both dependants
@@ -84,8 +96,8 @@ Print Assumptions C15_depload_progress.
       in one interleaving a dependant's command reads a torn output, in another WriteOutputs caches one; d's command runs
       twice in both.  (b) the two seeded orders (kept in /verif/seeded/C15h and C15f): a command sees a stale output *)
 Theorem C15_depload_no_outer_lock_refuted :
-  (exists evs, run_fault_summary VNoOuterLock 1 2 (fun _ => true) evs = Some (true, false, 2)) /\
-  (exists evs, run_fault_summary VNoOuterLock 1 2 (fun _ => true) evs = Some (false, true, 2)).
+  (exists evs, run_fault_summary VNoOuterLock 1 2 (fun _ => true) false evs = Some (true, false, 2)) /\
+  (exists evs, run_fault_summary VNoOuterLock 1 2 (fun _ => true) false evs = Some (false, true, 2)).
 Proof.
   exact (conj (ex_intro _ sched_torn_read (proj1 no_outer_lock_refuted))
               (ex_intro _ sched_torn_cached (proj2 no_outer_lock_refuted))).
@@ -100,24 +112,41 @@ Theorem C15_depload_requested_once_refuted : exists evs, run_saw_stale VRequeste
 Proof. exact requested_once_refuted. Qed.
 Print Assumptions C15_depload_requested_once_refuted.
 
-(* 7. non-vacuity ([complete_and_current n k miss evs r q] = evs is a run after which every command has run and saw every
+(* (c) seed C15j (kept in /verif/seeded/C15j): the flag check and the result lookup made BEFORE the outer lock, no re-check
+      under it; k = 2, n = 1, no blob lost, the result lookups fail: both dependants decide to re-run before either holds
+      the lock; in one interleaving the first dependant's command reads a torn output while the second re-runs d, in
+      another nobody sees a torn file; d's command runs twice in both *)
+Theorem C15_depload_lookup_before_lock_refuted :
+  (exists evs, run_fault_summary VLookupBeforeLock 1 2 no_blob_missing true evs = Some (true, false, 2)) /\
+  (exists evs, run_fault_summary VLookupBeforeLock 1 2 no_blob_missing true evs = Some (false, false, 2)).
+Proof.
+  exact (conj (ex_intro _ sched_lookup_torn (proj1 lookup_before_lock_refuted))
+              (ex_intro _ sched_lookup_twice (proj2 lookup_before_lock_refuted))).
+Qed.
+Print Assumptions C15_depload_lookup_before_lock_refuted.
+
+(* 7. non-vacuity ([complete_and_current n k miss rf evs r q] = evs is a run after which every command has run and saw every
       output current, with r restores and q re-runs whose cached bytes are current): 2 dependants, 2 outputs, no fault, the
       second arrives during the restore and waits for the outer lock; 2 dependants, 2 outputs, the blob of output 1 lost:
-      one output restored, exactly one re-run, both commands see current outputs; and the outer lock does block *)
+      one output restored, exactly one re-run, both commands see current outputs; 2 dependants, 2 outputs, no blob lost, the
+      result lookups fail: no restore, exactly one re-run, both commands see current outputs; and the outer lock does block *)
 Theorem C15_depload_nonvacuous :
-  complete_and_current 2 2 no_blob_missing sched_two_two 2 0 = true /\
-  complete_and_current 2 2 (fun i => Nat.eqb i 1) sched_fault 1 1 = true /\
-  run VCorrect 2 (init 2 no_blob_missing) [(0, SStart); (0, SOuterLock); (1, SStart); (1, SOuterLock)] = None.
-Proof. exact (conj depload_nonvacuous (conj depload_fault_nonvacuous lock_blocks_nonvacuous)). Qed.
+  complete_and_current 2 2 no_blob_missing false sched_two_two 2 0 = true /\
+  complete_and_current 2 2 (fun i => Nat.eqb i 1) false sched_fault 1 1 = true /\
+  complete_and_current 2 2 no_blob_missing true sched_result_fault 0 1 = true /\
+  run VCorrect 2 (init 2 no_blob_missing false) [(0, SStart); (0, SOuterLock); (1, SStart); (1, SOuterLock)] = None.
+Proof.
+  exact (conj depload_nonvacuous (conj depload_fault_nonvacuous (conj depload_result_fault_nonvacuous lock_blocks_nonvacuous))).
+Qed.
 Print Assumptions C15_depload_nonvacuous.
 
 (* 8. what the check stage evaluates (DepLoad.replay) is a run of this model, and each window ends quiescent *)
-Theorem C15_depload_replay_is_a_run : forall v asc n k miss toks,
-  reachable v n k miss (snd (replay_from v asc n k (init k miss) toks)).
+Theorem C15_depload_replay_is_a_run : forall v asc n k miss rf toks,
+  reachable v n k miss rf (snd (replay_from v asc n k (init k miss rf) toks)).
 Proof. exact replay_state_reachable. Qed.
 Print Assumptions C15_depload_replay_is_a_run.
 
-Theorem C15_depload_replay_window_quiescent : forall asc n k miss s tok, reachable VCorrect n k miss s ->
+Theorem C15_depload_replay_window_quiescent : forall asc n k miss rf s tok, reachable VCorrect n k miss rf s ->
   fst (do_token VCorrect asc n k s tok) = true ->
   first_auto VCorrect n (snd (do_token VCorrect asc n k s tok)) (task_order asc k) = None.
 Proof. exact do_token_quiescent. Qed.
